@@ -34,12 +34,17 @@ impl<'de, const LENGTH: usize> Deserialize<'de> for StackByteArray<LENGTH> {
                 let mut idx: usize = 0;
 
                 while let Some(elem) = seq.next_element()? {
-                    if idx < LENGTH {
-                        arr[idx] = elem;
-                        idx += 1;
-                    } else {
-                        break;
+                    if idx >= LENGTH {
+                        // too many elements for a fixed-length array
+                        return Err(Error::invalid_length(idx + 1, &stringify!(LENGTH)));
                     }
+                    arr[idx] = elem;
+                    idx += 1;
+                }
+
+                if idx != LENGTH {
+                    // too few elements: don't pad
+                    return Err(Error::invalid_length(idx, &stringify!(LENGTH)));
                 }
 
                 Ok(arr)
@@ -131,16 +136,12 @@ mod protected {
                     A: SeqAccess<'de>,
                 {
                     let mut arr = HeapBytes::default();
-                    let mut idx: usize = 0;
-                    let size_hint = seq.size_hint().unwrap_or(1);
-                    arr.resize(size_hint, 0);
 
+                    // the size hint is advisory (absent for self-describing
+                    // formats): the result holds exactly the elements seen
                     while let Some(elem) = seq.next_element()? {
-                        if idx > arr.len() {
-                            arr.resize(idx, 0);
-                        }
-                        arr[idx] = elem;
-                        idx += 1;
+                        let len = arr.len();
+                        arr.resize(len + 1, elem);
                     }
 
                     Ok(arr)
@@ -176,20 +177,16 @@ mod protected {
                 where
                     A: SeqAccess<'de>,
                 {
-                    let mut arr = HeapBytes::gen_locked().expect("couldn't create locked bytes");
-                    let mut idx: usize = 0;
-                    let size_hint = seq.size_hint().unwrap_or(1);
-                    arr.resize(size_hint, 0);
+                    let mut arr = HeapBytes::default();
 
+                    // the size hint is advisory (absent for self-describing
+                    // formats): the result holds exactly the elements seen
                     while let Some(elem) = seq.next_element()? {
-                        if idx > arr.len() {
-                            arr.resize(idx, 0);
-                        }
-                        arr[idx] = elem;
-                        idx += 1;
+                        let len = arr.len();
+                        arr.resize(len + 1, elem);
                     }
 
-                    Ok(arr)
+                    arr.mlock().map_err(Error::custom)
                 }
 
                 fn visit_bytes<E>(self, v: &[u8]) -> Result<Self::Value, E>
@@ -226,17 +223,22 @@ mod protected {
                     let mut arr = HeapByteArray::<LENGTH>::gen_locked()
                         .expect("couldn't create locked bytes");
                     let mut idx: usize = 0;
-                    let size_hint = seq.size_hint().unwrap_or(0);
-                    if size_hint != LENGTH {
-                        Err(Error::invalid_length(size_hint, &stringify!(LENGTH)))
-                    } else {
-                        while let Some(elem) = seq.next_element()? {
-                            arr[idx] = elem;
-                            idx += 1;
-                        }
 
-                        Ok(arr)
+                    // count the elements rather than trusting the (optional,
+                    // advisory) size hint
+                    while let Some(elem) = seq.next_element()? {
+                        if idx >= LENGTH {
+                            return Err(Error::invalid_length(idx + 1, &stringify!(LENGTH)));
+                        }
+                        arr[idx] = elem;
+                        idx += 1;
                     }
+
+                    if idx != LENGTH {
+                        return Err(Error::invalid_length(idx, &stringify!(LENGTH)));
+                    }
+
+                    Ok(arr)
                 }
 
                 fn visit_bytes<E>(self, v: &[u8]) -> Result<Self::Value, E>
